@@ -422,6 +422,7 @@ func routeForwardRun(w *World) {
 	factoryCalls, fallbackCalls := 0, 0
 	var opts []router.Option
 	hasFactory, hasFallback := t.Flag(1, 2), t.Flag(1, 2)
+	fallbackFails := t.Flag(1, 2)
 	if hasFactory {
 		opts = append(opts, router.WithFactory(func(n string) (any, error) {
 			factoryCalls++
@@ -439,6 +440,10 @@ func routeForwardRun(w *World) {
 			fallbackCalls++
 			if strings.HasPrefix(n, "b") {
 				return mkClient(n), nil
+			}
+			if fallbackFails {
+				// (a fallback that asks somebody else - a parent router, say - and passes on what it was told)
+				return nil, status.Error(codes.NotFound, "fallback: "+n)
 			}
 			return nil, nil
 		}))
@@ -707,6 +712,7 @@ type regClient struct{ id string }
 func routeRegistryRun(w *World) {
 	t := w.Tape
 	hasFactory, hasFallback := t.Flag(2, 3), t.Flag(1, 3)
+	fallbackFails := t.Flag(1, 2)
 	nextID := 0
 	type change struct {
 		name, old, new string
@@ -744,6 +750,9 @@ func routeRegistryRun(w *World) {
 		opts = append(opts, router.WithFallback(func(n string) (any, error) {
 			if n == "b" {
 				return &regClient{id: "fallback:b"}, nil
+			}
+			if fallbackFails {
+				return nil, status.Error(codes.NotFound, "fallback: "+n) // what it got from whoever it asked
 			}
 			return nil, nil
 		}))
